@@ -302,7 +302,7 @@ fn archives_over_faulty_reader(sel: u64) {
     for (id, data) in &contents {
         t.add_file(id, "txt", data.clone());
     }
-    let opts = ArcOpts { order: sel | 1, dir_members: sel % 2 == 0, dot_prefix: false, gnu: sel % 3 == 0, deflate: false };
+    let opts = ArcOpts { order: sel | 1, dir_members: sel % 2 == 0, dot_prefix: false, gnu: sel % 3 == 0, deflate: false, extra: 0 };
     let kind = [crate::world::IoKind::PermissionDenied, crate::world::IoKind::UnexpectedEof, crate::world::IoKind::Other][(sel % 3) as usize];
     let fault = match sel % 4 {
         0 => RFault::Short(1 + (sel % 300) as usize),
